@@ -1227,6 +1227,85 @@ def engine_override_runs(chk, n, variant):
                               f"does not declare it", rep)
 
 
+def session_publication(chk):
+    """Concurrent workers share `EngineContext.session`; the basic-auth credentials travel only as `session.auth`.
+    Whatever the interleaving of two workers' first look-ups, a session handed to a worker must already carry the
+    configured auth / verify / headers.  Deterministic schedules: worker 1 is held at the k-th attribute assignment
+    made on the new session after its construction (and once inside the construction), worker 2 looks the session up
+    while worker 1 is held and its snapshot is judged."""
+    import requests
+
+    from schemathesis.engine.config import EngineConfig, NetworkConfig
+    from schemathesis.engine.context import EngineContext
+
+    schema = schemathesis.openapi.from_dict({"openapi": "3.0.2", "info": {"title": "t", "version": "1"}, "paths": {}})
+    for hold_at in ("__init__", "verify", "auth", "cert", "after"):
+        cfg = EngineConfig(network=NetworkConfig(auth=("cnr-user", "cnr-pass"), headers={"X-Cnr": "v"}, tls_verify=False,
+                                                 cert="/nonexistent/cert.pem"))
+        ctx = EngineContext(schema=schema, stop_event=threading.Event(), config=cfg)
+        reached, release = threading.Event(), threading.Event()
+        base = requests.Session
+
+        class HeldSession(base):
+            def __init__(self):
+                if hold_at == "__init__" and threading.current_thread().name == "w1" and not reached.is_set():
+                    reached.set()
+                    release.wait(5)
+                super().__init__()
+                object.__setattr__(self, "_built", True)
+
+            def __setattr__(self, name, value):
+                if name == hold_at and getattr(self, "_built", False) and threading.current_thread().name == "w1" \
+                        and not reached.is_set():
+                    reached.set()
+                    release.wait(5)
+                super().__setattr__(name, value)
+
+        seen: dict = {}
+
+        def snapshot(session):
+            return {"auth": session.auth, "verify": session.verify, "header": session.headers.get("X-Cnr"), "cert": session.cert}
+
+        def w1():
+            seen["w1"] = snapshot(ctx.session)
+            if hold_at == "after":
+                reached.set()
+
+        def w2():
+            reached.wait(5)
+            try:
+                seen["w2"] = snapshot(ctx.session)
+            finally:
+                release.set()
+
+        requests.Session = HeldSession
+        try:
+            t1, t2 = threading.Thread(target=w1, name="w1"), threading.Thread(target=w2, name="w2")
+            t1.start(); t2.start(); t1.join(20); t2.join(20)
+        finally:
+            requests.Session = base
+        if t1.is_alive() or t2.is_alive() or set(seen) != {"w1", "w2"}:
+            raise InfraError(f"session_publication: schedule {hold_at} did not finish: {seen}")
+        want = {"auth": ("cnr-user", "cnr-pass"), "verify": False, "header": "v", "cert": "/nonexistent/cert.pem"}
+        chk.case("EngineContext.session:two-workers", key=hold_at, nontrivial=True, sample={"hold_at": hold_at, "seen": seen})
+        chk.feature(f"session-publication:held-at={hold_at}")
+        # correspondence with SV.Model.C14.workerSession for the builder program of the tree (publish last): settings are
+        # numbered in the order the getter assigns them; worker 2 looks the session up after t of them
+        order = ["verify", "auth", "header", "cert"]
+        t = {"__init__": 0, "verify": 0, "auth": 1, "cert": 3, "after": 5}[hold_at]
+        model = chk.driver().batch([("worker_session", {"cfg": [0, 1, 2, 3], "publish": "last", "t": t})])[0]
+        impl = [i for i, k in enumerate(order) if seen["w2"].get(k) == want[k]]
+        if model != impl:
+            chk.disagreement("EngineContext.session:two-workers", {"hold_at": hold_at, "t": t}, model, impl)
+        for who, got in seen.items():
+            if got != want:
+                missing = sorted(k for k in want if got.get(k) != want[k])
+                chk.violation(f"C14:EngineContext.session:worker-gets-a-session-without-the-configured-{'-'.join(missing)}",
+                              f"schedule: worker 1 is building the session and is held at `{hold_at}`; the session handed to "
+                              f"{who} has {got}, the configuration says {want}: requests sent through it lack the credentials",
+                              {"mechanism": "session_publication", "hold_at": hold_at, "seen": {k: str(v) for k, v in seen.items()}})
+
+
 def run(chk):
     chk.proved += ["prepare_headers_user_wins / prepare_headers_keeps_case", "update_wins / update_keeps / "
                    "explicit_survives_merge / override_wins", "strategy_headers_complete", "test_storage_first / "
@@ -1261,6 +1340,7 @@ def run(chk):
     storage_filters_corr(chk, chk.budget(150, 2000))
     cache_threads(chk, chk.budget(4, 30))
     serialize_case_auth(chk)
+    session_publication(chk)
     canary_runs(chk, chk.budget(8, 60))
     probe_runs(chk, chk.budget(4, 30))
     variant = detect_kwargs_variant(chk)
